@@ -163,7 +163,7 @@ def run(tier, seed):
     ok, info = prep(PROP)
     ob, dis = proof_gate(rep, PROP, ok, info)
     rng = random.Random(seed)
-    n = 200 if tier == "quick" else 1200
+    n = 200 if tier == "quick" else 2500
     cfgs = [gen_config(rng) for _ in range(n)]
     base_cfg = config_text([], {}, False)
     files = lambda cfg: {"sqlc.json": cfg, "schema.sql": SCHEMA, "query.sql": QUERIES}
